@@ -432,7 +432,8 @@ func (r *Reader) seek(rec record) (*tableIter, error) {
 	}
 
 	tabIter, err := r.start(rec.typ(), false)
-	if err != nil {
+	if err != nil || tabIter == nil {
+		// (the section's first block is missing or of another type)
 		return nil, err
 	}
 
@@ -449,6 +450,10 @@ func (r *Reader) seekIndexed(want record) (*tableIter, error) {
 	if err != nil {
 		return nil, err
 	}
+	if idxIter == nil {
+		// the footer names an index, but there is no index block.
+		return nil, fmtError
+	}
 
 	wantIdx := &indexRecord{
 		LastKey: want.key(),
@@ -459,19 +464,27 @@ func (r *Reader) seekIndexed(want record) (*tableIter, error) {
 		return nil, err
 	}
 
-	for {
+	for level := 0; ; level++ {
+		if level > maxIndexLevels {
+			// index blocks pointing at each other.
+			return nil, fmtError
+		}
 		var rec indexRecord
 		ok, err := idxIter.Next(&rec)
-		if !ok {
-			return nil, nil
-		}
 		if err != nil {
 			return nil, err
+		}
+		if !ok {
+			return nil, nil
 		}
 
 		tabIter, err := r.tabIterAt(rec.Offset, blockTypeAny)
 		if err != nil {
 			return nil, err
+		}
+		if tabIter == nil {
+			// the index entry points outside the table.
+			return nil, fmtError
 		}
 
 		err = tabIter.bi.seek(want.key())
@@ -484,7 +497,8 @@ func (r *Reader) seekIndexed(want record) (*tableIter, error) {
 		}
 
 		if tabIter.typ != blockTypeIndex {
-			log.Panicf("got type %c following indexes", tabIter.typ)
+			// the index entry points at a block of another section.
+			return nil, fmtError
 		}
 
 		idxIter = tabIter
@@ -515,7 +529,8 @@ func (r *Reader) seekLinear(tabIter *tableIter, want record) (bool, error) {
 			return false, err
 		}
 		if !ok {
-			panic("read from fresh block failed")
+			// a block without records
+			return false, fmtError
 		}
 		if rec.key() > wantKey {
 			break
@@ -613,6 +628,9 @@ func (r *Reader) RefsFor(oid []byte) (*Iterator, error) {
 	if err != nil {
 		return nil, err
 	}
+	if it == nil {
+		return &Iterator{&emptyIterator{}}, nil
+	}
 	return &Iterator{&filteringRefIterator{
 		tab:         r,
 		oid:         oid,
@@ -622,6 +640,9 @@ func (r *Reader) RefsFor(oid []byte) (*Iterator, error) {
 }
 
 func (r *Reader) refsForIndexed(oid []byte) (*Iterator, error) {
+	if len(oid) < r.objectIDLen {
+		return nil, fmtError
+	}
 	want := &objRecord{HashPrefix: oid[:r.objectIDLen]}
 
 	it, err := r.seek(want)
